@@ -36,6 +36,9 @@ func get(p string) *annotations.HttpRule {
 func post(p, body string) *annotations.HttpRule {
 	return &annotations.HttpRule{Pattern: &annotations.HttpRule_Post{Post: p}, Body: body}
 }
+func anyVerb(p, body string) *annotations.HttpRule {
+	return &annotations.HttpRule{Pattern: &annotations.HttpRule_Custom{Custom: &annotations.CustomHttpPattern{Kind: "*", Path: p}}, Body: body}
+}
 func with(r *annotations.HttpRule, adds ...*annotations.HttpRule) *annotations.HttpRule {
 	r.AdditionalBindings = adds
 	return r
@@ -54,15 +57,17 @@ func with(r *annotations.HttpRule, adds ...*annotations.HttpRule) *annotations.H
 // Every method with path variables has at least two such bindings, all of
 // them requested after every step. Every service also has bindings below the
 // two variable nodes of /sv ({a} and {a=sh/*}) that all services share, so
-// that dropping one provider exercises the pruning of nodes others still use.
+// that dropping one provider exercises the pruning of nodes others still use;
+// A.Put owns an any-verb (custom kind "*") binding on /any/things, a node
+// whose only other content are B's and T's bindings below it.
 func files() []*vschema.File {
 	return []*vschema.File{
 		{Path: "vf/rsa.proto", Pkg: "vf.rs", Messages: aReq(1), Services: []vschema.Service{{Name: "A", Methods: []vschema.Method{
 			{Name: "Get", In: "vf.rs.AReq", Out: "vf.Rsp", Rule: with(get("/rs/a/{a}"), get("/rs/alt/{a}/{n}"), post("/rs/a", "*"), get("/rs/x/{a}"), get("/rs/ab/{a}/{b}"), get("/sv/{a}/sa"), get("/sv/{a=sh/*}/pa"))},
-			{Name: "Put", In: "vf.rs.AReq", Out: "vf.Rsp", Rule: post("/rs/put", "*")},
+			{Name: "Put", In: "vf.rs.AReq", Out: "vf.Rsp", Rule: with(post("/rs/put", "*"), anyVerb("/any/things", "*"))},
 		}}}},
 		{Path: "vf/rsb.proto", Pkg: "vf.rs", Services: []vschema.Service{{Name: "B", Methods: []vschema.Method{
-			{Name: "Get", In: "vf.Req", Out: "vf.Rsp", Rule: with(get("/rs/b/{a}"), get("/rs/b2/{a}/{n}"), post("/rs/b", "*"), get("/sv/{a}/sb"), get("/sv/{a=sh/*}/pb"))},
+			{Name: "Get", In: "vf.Req", Out: "vf.Rsp", Rule: with(get("/rs/b/{a}"), get("/rs/b2/{a}/{n}"), post("/rs/b", "*"), get("/sv/{a}/sb"), get("/sv/{a=sh/*}/pb"), get("/any/things/{a}"))},
 		}}}},
 		{Path: "vf/rsc.proto", Pkg: "vf.rs", Services: []vschema.Service{{Name: "C", Methods: []vschema.Method{
 			{Name: "Get", In: "vf.Req", Out: "vf.Rsp", Rule: with(get("/rs/c/{a}"), get("/rs/c2/{a}/{n}"), get("/rs/x/{a}"), get("/sv/{a}/sc"), get("/sv/{a=sh/*}/pc"))},
@@ -90,7 +95,7 @@ func aReq(rev int) []*descriptorpb.DescriptorProto {
 func filesV2() *vschema.File {
 	return &vschema.File{Path: "vf/rsa.proto", Pkg: "vf.rs", Messages: aReq(2), Services: []vschema.Service{{Name: "A", Methods: []vschema.Method{
 		{Name: "Get", In: "vf.rs.AReq", Out: "vf.Rsp", Rule: with(get("/rs/a/{a}"), get("/rs/alt/{a}/{n}"), post("/rs/a", "*"), get("/rs/x/{a}"), get("/rs/ab/{a}/{b}"), get("/rs/v2/{a}"), get("/sv/{a}/sa"), get("/sv/{a=sh/*}/pa"))},
-		{Name: "Put", In: "vf.rs.AReq", Out: "vf.Rsp", Rule: post("/rs/put", "*")},
+		{Name: "Put", In: "vf.rs.AReq", Out: "vf.Rsp", Rule: with(post("/rs/put", "*"), anyVerb("/any/things", "*"))},
 		// a method only the newer revision has
 		{Name: "Extra", In: "vf.rs.AReq", Out: "vf.Rsp", Rule: get("/rs/extra/{a}")},
 	}}}}
@@ -119,7 +124,7 @@ func filesD(rev int) *vschema.File {
 // take down (its process stops; the connection stays registered).
 func fileT() *vschema.File {
 	return &vschema.File{Path: "vf/rst.proto", Pkg: "vf.rs", Services: []vschema.Service{
-		{Name: "T", Methods: []vschema.Method{{Name: "Get", In: "vf.Req", Out: "vf.Rsp", Rule: with(get("/rs/t/{a}"), get("/sv/{a}/st"), get("/sv/{a=sh/*}/pt"))}}},
+		{Name: "T", Methods: []vschema.Method{{Name: "Get", In: "vf.Req", Out: "vf.Rsp", Rule: with(get("/rs/t/{a}"), get("/sv/{a}/st"), get("/sv/{a=sh/*}/pt"), get("/any/things/{a}/t"))}}},
 	}}
 }
 
